@@ -80,3 +80,9 @@ Print Assumptions C20_xhtml_escaped_contribution_has_no_markup.
 Example C20_xhtml_example :
   c_callfn (s2l "xhtml_escape") (s2l "<a href='x'>") = XOk (s2l "&lt;a href=&#x27;x&#x27;&gt;").
 Proof. vm_compute. reflexivity. Qed.
+
+(* the model satisfies the checker applied to the implementation's observables:
+   what the compiled model outputs is the output of the per-file annotated template *)
+Theorem C20_model_satisfies_checker : forall c, check_case c (run_case c) = true.
+Proof. exact model_satisfies_checker. Qed.
+Print Assumptions C20_model_satisfies_checker.
